@@ -30,6 +30,7 @@ def menu(slot):
         ("svc", 16, 0xDF00 | slot),
         ("udf", 16, 0xDE00 | slot),
         ("ldr-fault", 16, 0x682E),                             # LDR r6,[r5] with r5 unaligned, SCTLR.A=1
+        ("smc", 32, 0xF7F08000),                               # SMC (only legal as the last instruction of the block)
         ("branch", 16, 0xE000),                                # B .+4 (only legal as the last instruction)
     ]
 
@@ -116,6 +117,7 @@ def programs(res, fc, mask, per, tier="quick"):
     base = list(env.base("svc", "ram")[0])
     base[ix["sctlr"]] = (base[ix["sctlr"]] | (1 << 30) | 2) & ~1          # TE=1 (Thumb handlers), A=1, MPU off
     base[ix["vbar"]] = VBASE
+    base[ix["mvbar"]] = VBASE + 0x40
     for k in range(8):
         base[ix["R.R%dusr" % k]] = 0x100 * k
     base[ix["R.R5usr"]] = 0x10101
@@ -124,9 +126,9 @@ def programs(res, fc, mask, per, tier="quick"):
     mem0 = env.base("svc", "ram")[1]
     slots = []
     for s in range(n + 1):
-        m = menu(s)[:per]
+        m = menu(s)[:min(per, 6)]
         if s == n - 1 and have_branch and per >= 3:
-            m = m + [menu(s)[6]]
+            m = m + [menu(s)[7], menu(s)[6]]
         slots.append(m)
     for seq in itertools.product(*slots):
         for nzcv in (NZCV8 if tier == "quick" else range(16)):
@@ -146,11 +148,12 @@ def programs(res, fc, mask, per, tier="quick"):
             machine.put_instr(cpu, VBASE + 0x04, 0xF3DE8F00, True, 32)
             machine.put_instr(cpu, VBASE + 0x08, 0xF3DE8F00, True, 32)
             machine.put_instr(cpu, VBASE + 0x10, 0xF3DE8F06, True, 32)
+            machine.put_instr(cpu, VBASE + 0x48, 0xF3DE8F00, True, 32)          # Monitor-mode SMC vector: return
             st = St(names, pre, plan.mem(), full)
             res.cases += 1
             res.add_state(hash((fc, mask, nzcv, tuple(s[0] for s in seq))))
             steps = 0
-            while steps < 12 and (CODE <= st.pc < addr + 2 or VBASE <= st.pc < VBASE + 0x20):
+            while steps < 12 and (CODE <= st.pc < addr + 2 or VBASE <= st.pc < VBASE + 0x60):
                 try:
                     label = model.step(st)
                 except Unpredictable:
